@@ -923,6 +923,9 @@ func (runInfo *runInfoStruct) runCloseStmt(stmt *ast.CloseStmt) {
 	if runInfo.err != nil {
 		return
 	}
+	if runInfo.rv.Kind() == reflect.Interface && !runInfo.rv.IsNil() {
+		runInfo.rv = runInfo.rv.Elem()
+	}
 	if runInfo.rv.Kind() == reflect.Chan {
 		ch := runInfo.rv
 		runInfo.rv = nilValue
